@@ -67,6 +67,9 @@ func c20WorkerMain(_ []string) int {
 			}
 		}
 		if err != nil {
+			if d := os.Getenv("C20_WORKER_TMP"); d != "" {
+				os.RemoveAll(d)
+			}
 			return 0
 		}
 	}
@@ -78,6 +81,7 @@ type c20WorkerProc struct {
 	out    *bufio.Reader
 	stderr *bytes.Buffer
 	lines  chan []byte
+	tmp    string // the worker's own TMPDIR: whatever a dying worker leaves behind goes with it
 }
 
 var c20W *c20WorkerProc
@@ -89,6 +93,10 @@ func c20StartWorker() (*c20WorkerProc, error) {
 	}
 	cmd := exec.Command(exe, "c20-worker")
 	cmd.Env = append(os.Environ(), "GOTRACEBACK=single")
+	tmp, terr := os.MkdirTemp("", "c20worker")
+	if terr == nil {
+		cmd.Env = append(cmd.Env, "TMPDIR="+tmp, "C20_WORKER_TMP="+tmp)
+	}
 	in, err := cmd.StdinPipe()
 	if err != nil {
 		return nil, err
@@ -97,7 +105,7 @@ func c20StartWorker() (*c20WorkerProc, error) {
 	if err != nil {
 		return nil, err
 	}
-	w := &c20WorkerProc{cmd: cmd, in: in, out: bufio.NewReaderSize(outp, 1<<20), stderr: &bytes.Buffer{}, lines: make(chan []byte, 1)}
+	w := &c20WorkerProc{cmd: cmd, in: in, out: bufio.NewReaderSize(outp, 1<<20), stderr: &bytes.Buffer{}, lines: make(chan []byte, 1), tmp: tmp}
 	cmd.Stderr = w.stderr
 	if err := cmd.Start(); err != nil {
 		return nil, err
@@ -123,6 +131,9 @@ func (w *c20WorkerProc) kill() {
 		w.cmd.Process.Kill()
 	}
 	w.cmd.Wait()
+	if w.tmp != "" {
+		os.RemoveAll(w.tmp)
+	}
 }
 
 // c20ViaWorker runs one explore case in the worker process.
@@ -147,6 +158,9 @@ func c20ViaWorker(e *c20ExploreC) c20Obs {
 		if !ok {
 			// the worker died while this case was in flight
 			w.cmd.Wait()
+			if w.tmp != "" {
+				os.RemoveAll(w.tmp)
+			}
 			first := w.stderr.String()
 			if len(first) > 400 {
 				first = first[:400]
